@@ -90,6 +90,10 @@ def run(ctx):
         vecs = (np.array([A, B, C]) @ R.T)[None].astype(np.float32)
         t = md.Trajectory(np.zeros((1, 1, 3), dtype=np.float32), None)
         t.unitcell_vectors = vecs
+        if t.unitcell_lengths is None or t.unitcell_angles is None or t.unitcell_vectors is None:
+            viol("rotated|cell-lost", "setting unitcell_vectors to a rotated description of lengths %s angles %s (vectors %s) leaves the trajectory without a unit cell" % (
+                (a, b, c), (al, be, ga), vecs[0].round(4).tolist()), rp)
+            continue
         if not (np.allclose(t.unitcell_lengths[0], (a, b, c), rtol=2e-5) and np.allclose(t.unitcell_angles[0], (al, be, ga), atol=5e-3)):
             viol("rotated", "setting unitcell_vectors to a rotated description of lengths %s angles %s reads back %s %s" % (
                 (a, b, c), (al, be, ga), t.unitcell_lengths[0], t.unitcell_angles[0]), rp)
